@@ -1018,7 +1018,96 @@ fn zoned_edges(c: &mut Ctx) {
     }
 }
 
+/// Field replacement and month stepping of zone-aware values in a zone whose offset changes (one
+/// transition: a fold or a gap; `super::c14::StepZone`): the operation acts on the wall clock and the
+/// result is the zone's own reading of the new wall clock — the offset is looked up again, a wall
+/// clock in the gap or in the fold has no single reading.
+fn run_step_zone(c: &mut Ctx) {
+    use super::c14::gen_step_zone;
+    use chrono::LocalResult;
+    let n = c.n(6000, 80000);
+    for i in 0..n {
+        let (zone, kind) = gen_step_zone(c);
+        let u = match c.rng.below(4) {
+            0 => zone.t.saturating_add(c.rng.range(-200_000, 200_000)),
+            1 => zone.t.saturating_add(c.rng.range(-40_000_000, 40_000_000)),
+            2 => zone.t.saturating_add(c.rng.range(-7300, 7300)),
+            _ => c.rng.range(-60_000_000_000, 200_000_000_000),
+        };
+        let Ok(LocalResult::Single(dt)) = guard(|| zone.timestamp_opt(u, c.rng.nanos())) else { continue };
+        let Ok(local) = guard(|| dt.naive_local()) else { continue };
+        // the replacement value: mostly a field of an instant near the transition, so that results land
+        // before it, after it, in the gap and in the fold
+        let probe = chrono::DateTime::from_timestamp(zone.t.saturating_add(c.rng.range(-90_000, 90_000)), 0).map(|x| x.naive_utc()).unwrap_or(local);
+        let op = c.rng.below(13);
+        let v: u32 = match op {
+            0 => 0,
+            1 | 2 => if c.rng.chance(2, 3) { probe.month() } else { c.rng.below(14) as u32 },
+            3 | 4 => if c.rng.chance(2, 3) { probe.day() } else { c.rng.below(33) as u32 },
+            5 | 6 => if c.rng.chance(2, 3) { probe.ordinal() } else { c.rng.below(368) as u32 },
+            7 => if c.rng.chance(2, 3) { (probe.hour() + c.rng.below(3) as u32) % 24 } else { c.rng.below(26) as u32 },
+            8 => c.rng.below(62) as u32,
+            9 => c.rng.below(62) as u32,
+            10 => c.rng.nanos(),
+            _ => c.rng.below(30) as u32,
+        };
+        let year = if c.rng.chance(2, 3) { probe.year() } else { local.year() + c.rng.range(-2, 2) as i32 };
+        let months = Months::new(v);
+        let (name, got, want): (&str, Result<Option<chrono::DateTime<super::c14::StepZone>>, ()>, Result<Option<NaiveDateTime>, ()>) = match op {
+            0 => ("with_year", guard(|| dt.with_year(year)), guard(|| local.with_year(year))),
+            1 => ("with_month", guard(|| dt.with_month(v)), guard(|| local.with_month(v))),
+            2 => ("with_month0", guard(|| dt.with_month0(v)), guard(|| local.with_month0(v))),
+            3 => ("with_day", guard(|| dt.with_day(v)), guard(|| local.with_day(v))),
+            4 => ("with_day0", guard(|| dt.with_day0(v)), guard(|| local.with_day0(v))),
+            5 => ("with_ordinal", guard(|| dt.with_ordinal(v)), guard(|| local.with_ordinal(v))),
+            6 => ("with_ordinal0", guard(|| dt.with_ordinal0(v)), guard(|| local.with_ordinal0(v))),
+            7 => ("with_hour", guard(|| dt.with_hour(v)), guard(|| local.with_hour(v))),
+            8 => ("with_minute", guard(|| dt.with_minute(v)), guard(|| local.with_minute(v))),
+            9 => ("with_second", guard(|| dt.with_second(v)), guard(|| local.with_second(v))),
+            10 => ("with_nanosecond", guard(|| dt.with_nanosecond(v)), guard(|| local.with_nanosecond(v))),
+            11 => ("checked_add_months", guard(|| dt.checked_add_months(months)), guard(|| local.checked_add_months(months))),
+            _ => ("checked_sub_months", guard(|| dt.checked_sub_months(months)), guard(|| local.checked_sub_months(months))),
+        };
+        let detail = format!("zone [{} -> {} at {}] ({kind}) value {:?} {name} {}", zone.o1, zone.o2, zone.t, dt, if op == 0 { year as i64 } else { v as i64 });
+        let (Ok(got), Ok(want)) = (got, want) else {
+            c.fail("zone with a transition: field replacement / month stepping panicked", &detail);
+            continue;
+        };
+        // the zone's own reading of the new wall clock
+        let reading = match want {
+            None => None,
+            Some(l) => match guard(|| zone.from_local_datetime(&l)) {
+                Ok(LocalResult::Single(x)) => Some(x),
+                _ => None,
+            },
+        };
+        c.count(&format!("stepzone:{kind}:{}", match (&got, &reading) { (Some(_), _) => "some", (None, None) => "none", (None, Some(_)) => "none-but-reading" }));
+        match (got, reading) {
+            (Some(g), Some(r)) => {
+                if g != r || g.offset().fix() != r.offset().fix() || g.naive_local() != r.naive_local() {
+                    c.fail(
+                        "zone with a transition: the result is not the zone's reading of the new wall clock (instant or offset differ)",
+                        &format!("{detail} -> {:?} (offset {}), the zone reads {:?} (offset {})", g, g.offset().fix(), r, r.offset().fix()),
+                    );
+                }
+            }
+            (None, None) => {}
+            (Some(g), None) => c.fail("zone with a transition: a value is returned although the new wall clock has no single reading in the zone", &format!("{detail} -> {:?}", g)),
+            (None, Some(r)) => {
+                // refused although the wall clock has a reading: only at the ends of the instant range
+                if r >= chrono::DateTime::<Utc>::MIN_UTC && r <= chrono::DateTime::<Utc>::MAX_UTC {
+                    c.fail("zone with a transition: refused although the new wall clock has a single reading in range", &format!("{detail}; the zone reads {:?}", r));
+                }
+            }
+        }
+        if i < 2 {
+            c.sample(&format!("step zone: {detail}"));
+        }
+    }
+}
+
 pub fn run(c: &mut Ctx) {
+    run_step_zone(c);
     // ---- block plan (digests over every date of a block of years) -------------------------------------
     let month_counts: Vec<u32> = vec![0, 1, 11, 12, 13, 1199, 4800, 3_121_700, i32::MAX as u32, i32::MAX as u32 + 1, u32::MAX];
     let field_values: Vec<u32> = vec![0, 1, 2, 3, 11, 12, 13, 28, 29, 30, 31, 32, 59, 60, 61, 365, 366, 367, 257, 512, 65537, 65536 + 366, (1 << 31) - 1, 1 << 31, u32::MAX - 1, u32::MAX];
